@@ -339,12 +339,48 @@ def selCols (sel : List SelItem) : List Nat :=
     | .key c => some c
     | .agg a => if a.fn = .count1 then none else some a.col
 
-/-- `groupby-absent-column`: a selected column has no data in some partition (absent from it, or stored as the
-    all-NULL column type). -/
+/-- A selected column has no data in some partition (absent from it, or stored as the all-NULL column type).  NOT a
+    classifier any more (it swallowed every case of the region, also the ones the engine answers correctly: a seeded
+    planner defect there was invisible) — it only keeps the model from predicting `err:fatal` for a nullable float key
+    next to such a column.  The classifier of `groupby-absent-column` is `absentWrong`. -/
 def absentTrigger (c : ApiCase) : Bool :=
   (selCols c.sel).any fun col => c.metas.any fun pm =>
     let m := pm.getD col ColMeta.absent
     !m.present || m.enc = "Null"
+
+/-- Has column `col` no data in the partition with metadata `pm`? -/
+def noData (pm : List ColMeta) (col : Nat) : Bool :=
+  let m := pm.getD col ColMeta.absent
+  !m.present || m.enc = "Null"
+
+/-- `groupby-absent-column`, narrowed to the sub-shapes the engine answers wrongly today (input-characterising:
+    select list, column kinds, per-partition metadata and kept rows).  Everything else with a column that has no data
+    in some partition — a single integer / string grouping column absent in a partition, several integer grouping
+    columns that stay bit-packable, SUM / MIN / MAX / COUNT(1) over an absent input, with or without WHERE — is
+    answered correctly and is judged strictly by `specGroupBy`.
+      W1  COUNT(c) / AVG(c) where `c` has no data in a partition that keeps at least one row (the all-zero count is used
+          as the group selector: that partition's groups are dropped; next to COUNT(1) BatchResult::validate fails);
+      W2  a float grouping column without data in some partition (`unfuse_nulls not implemented for type F64` when the
+          Null partition is merged on the left);
+      W3  several grouping columns, one without data in a partition, and the key does not stay on the bit-packed
+          integer path (a string / float grouping column in the list, or not packable in that partition): the
+          value-rows fallback casts the Null plan to Val (`type_conversion not supported for type Null`). -/
+def absentWrong (c : ApiCase) : Bool :=
+  let keys := c.sel.filterMap SelItem.keyCol?
+  let kinds : List ColKind := keys.map fun k => colKind (c.cols.getD k [])
+  let cntCols := c.sel.filterMap fun
+    | .agg a => if a.fn = .count ∨ a.fn = .avg then some a.col else none
+    | .key _ => none
+  let kepts : List (List Row) := (keptRows c).getD (c.metas.map fun _ => [[]])
+  let w1 := (kepts.zip c.metas).any fun (kept, pm) => !kept.isEmpty && cntCols.any (noData pm)
+  let w2 := (keys.zip kinds).any fun (k, kd) => kd = .float && c.metas.any fun pm => noData pm k
+  let w3 := decide (keys.length ≥ 2) && c.metas.any fun pm =>
+    keys.any (noData pm) &&
+      (kinds.any (· ≠ .int) ||
+       (LM.Group.planPack ((keys.filter fun k => !noData pm k).reverse.map fun k =>
+          let m := pm.getD k ColMeta.absent
+          ((effRange m).getD none, m.nullable)) 0).isNone)
+  w1 || w2 || w3
 
 /-- `groupby-nullable-float-key`: a float grouping column that is nullable in some partition. -/
 def floatNullKeyTrigger (c : ApiCase) : Bool :=
@@ -477,6 +513,17 @@ def regroupMatches (c : ApiCase) (impl : String) : Bool :=
           | .ok srows => sortStrings (rg.map showRow) = sortStrings (srows.map showRow)
           | _ => false
 
+/-- `regroupMatches` against the `count-null-group`-substituted specification rows (no AVG: a quotient cannot be
+    recombined, and the substitution of AVG is not stable under splitting). -/
+def regroupMatchesCountPatched (c : ApiCase) (impl : String) : Bool :=
+  if !impl.startsWith "rows:" then false else
+  match parseRows (impl.drop 5).toString with
+  | none => false
+  | some irows =>
+      match regroup c.sel irows, countPatchedRows c with
+      | some rg, some prows => sortStrings (rg.map showRow) = sortStrings (prows.map showRow)
+      | _, _ => false
+
 def judgeApi (impl : String) (spec : Res (List Row)) (mayOvf : Bool) : String :=
   match spec with
   | .unsupported => "SKIP"
@@ -512,12 +559,15 @@ def stepGrp (sel wh impl bounds metaTok phys : String) (colToks : List String) :
       let modelAgrees := model = impl
       let known :=
         if spec = "OK" ∨ spec = "SKIP" then ""
-        else if floatNullKeyTrigger c ∧ !absentTrigger c ∧ impl = "err:fatal" then "groupby-nullable-float-key"
-        else if absentTrigger c then "groupby-absent-column"
+        else if floatNullKeyTrigger c ∧ !absentWrong c ∧ impl = "err:fatal" then "groupby-nullable-float-key"
+        else if absentWrong c then "groupby-absent-column"
         else if compressedKeyTrigger c ∧ (modelAgrees ∨ (model = "?" ∧
             (c.metas.length ≥ 2 ∨ (truncPatchedRows c).any (sameMultiset impl)))) then "groupby-compressed-key-type"
         else if modelAgrees ∧ run.parts.length ≥ 2 ∧ run.parts.any (fun p => !keysAscending run.univ p) then "groupby-null-key-order"
         else if nullKeyOrderTrigger c && regroupMatches c impl then "groupby-null-key-order"
+        -- both open findings at once (groups split across partitions AND a group without non-NULL COUNT input):
+        -- the re-aggregated implementation rows are the specification's rows with COUNT → NULL / AVG → 1 substituted
+        else if nullKeyOrderTrigger c && countNullGroup c && regroupMatchesCountPatched c impl then "groupby-null-key-order"
         else if sumHitsSentinel c ∧ (modelAgrees ∨ (model = "?" ∧ (sumPatchedRows c).any (sameMultiset impl))) then "sum-sentinel"
         else if c.sig = "emptyvec" ∧ (impl = "err:canceled" ∨ impl = "hang" ∨ impl = "panic") then "executor-empty-vector"
         else if countNullGroup c ∧ (modelAgrees ∨ (countPatchedRows c).any (sameMultiset impl)) then "count-null-group"
